@@ -449,4 +449,33 @@ def lpPushAll (m : MDP) : Nat → Vec → Vec × List Vec
     let b' := lpRowPass m (k / m.A) (k % m.A) b
     (b', rows ++ [b'])
 
+/-! ## the PolicyEvaluation object (what PolicyIteration drives with `setValues` between evaluations) -/
+
+/-- `PolicyEvaluation<M>`: the model is bound at construction; `tolerance_`, `horizon_`, `vParameter_`, and the internal `v1_` (moved-from by every return) -/
+structure PEObj where
+  tol : Rat
+  horizon : Nat
+  vParam : Vec
+  v1 : Vec
+
+inductive PEEvent where
+  | setTolerance (e : Rat)
+  | setHorizon (h : Nat)
+  | setValues (v : Vec)
+  | call (p : Mat) (movedFrom : Vec)
+
+def PEObj.step (m : MDP) (rep : Rep) (o : PEObj) : PEEvent → PEObj × Option PEOut
+  | .setTolerance e => (if e < 0 then o else { o with tol := e }, none)
+  | .setHorizon h => ({ o with horizon := h }, none)
+  | .setValues v => ({ o with vParam := v }, none)
+  | .call p junk => ({ o with v1 := junk }, some (policyEvaluation m rep o.horizon o.tol (some o.vParam) p))
+
+def PEObj.run (m : MDP) (rep : Rep) (o : PEObj) : List PEEvent → PEObj
+  | [] => o
+  | e :: es => PEObj.run m rep (o.step m rep e).1 es
+
+def PEEvent.isSetter : PEEvent → Bool
+  | .call _ _ => false
+  | _ => true
+
 end AITB.MDP
